@@ -34,4 +34,17 @@ def run(tier):
         Job("harness.c02", "attribution", [{}], 120, bounds=dict(frames="every call event of the fixture workload recorded from the live interpreter"),
             rule="selector over recorded real frames; get_func must return the function whose code ran", describe=H.describe),
     ]
-    return run_check(PID, tier, jobs, H.FUNCTIONS, ASSUMPTIONS, pre=H.validate_environment)
+    ncodes = len(H._distinct_codes(H.recorded_events()))
+    jobs.append(
+        Job("harness.c02", "realrun", [{"t0": i} for i in range(ncodes + 1)], 300,
+            bounds=dict(workload="fixtures/vfix/funcs.py workload recorded from the running interpreter: %d profile events of %d code objects "
+                                 "(module functions, methods of every kind, properties, closures, decorators, recursion, every parameter kind, "
+                                 "generators incl. interleaved / delegating / raising, coroutines that really suspend, exits by constant, "
+                                 "expression, implicit None and exception)" % (len(H.recorded_events()), ncodes),
+                        filter="admits one code object (each in turn) or everything", k="symbolic int"),
+            rule="one path = (code-filter choice, class of k); the real tracer consumes the recorded events (real code objects, real f_lasti)",
+            describe=H.describe, max_samples=4, validate_limit=50))
+    return run_check(PID, tier, jobs, H.FUNCTIONS, ASSUMPTIONS + [
+        "realrun: the events are those CPython really delivered for the fixture workload in this process (recorded natively before the "
+        "exploration); frames are proxies carrying the recorded code object, f_lasti, f_locals snapshot, globals and caller locals"],
+        pre=H.validate_environment)
